@@ -1,6 +1,7 @@
 import SaModel.Lemmas.C14Span
 import SaModel.Codec.Time
 import SaModel.Lemmas.C14Time
+import SaModel.Lemmas.C14DateStr
 /-
 C14 — date, time, timestamp and duration conversions are exact.
 
@@ -9,7 +10,10 @@ Time.lean (the date / time / timestamp / duration builders and readers).  Specif
 the statements: `specDuration`, `totalNanos`, `fracNanos` (Lemmas/C14Span.lean), `instantNanos` (below).
 chrono's parsers and the proleptic Gregorian calendar are EXTERNAL: they appear in the statements as the named
 model functions `parseNaiveTime`, `parseNaiveDate`, `daysFromCivil` … whose agreement with chrono / jiff is
-checked by the `temporal` correspondence suite, not proved.
+checked by the `temporal` correspondence suite, not proved.  What IS proved about the calendar model: the two
+Hinnant algorithms are mutually inverse bijections between ℤ and the valid civil dates (`days_civil_roundtrip`,
+`civil_days_roundtrip`, `civilFromDays_valid`), and the parsers (model) read every string the readers (model)
+produce back to the stored integer (`date_roundtrip`, `timestamp_roundtrip`).
 -/
 namespace SaModel.Props.C14
 open SaModel SaModel.Codec
@@ -433,16 +437,6 @@ theorem parseNaiveDate_spec {s : List Char} {z : Int} (h : parseNaiveDate s = .o
     · cases h
   · cases h
 
-theorem validDate_bounds {y m d : Int} (h : validDate y m d = true) : (1 ≤ m ∧ m ≤ 12) ∧ (1 ≤ d ∧ d ≤ 31) := by
-  unfold validDate at h
-  simp only [Bool.and_eq_true, decide_eq_true_eq] at h
-  refine ⟨⟨h.1.1.1, h.1.1.2⟩, h.1.2, ?_⟩
-  have := h.2
-  unfold daysInMonth at this
-  split at this
-  · split at this <;> omega
-  · split at this <;> omega
-
 /-- **date32_exact / date64_exact**: the stored value is the day count of the parsed civil date (relative to the
 calendar model), times 86 400 000 for Date64; never a panic -/
 theorem date_exact (ty : DateTy) (s : List Char) (v : Int) (h : dateOfString ty s = .ok v) :
@@ -531,28 +525,125 @@ theorem civilFromDays_shift (z k : Int) :
 /-- `daysFromCivil` applied to a triple -/
 def daysOfCivil (c : Int × Int × Int) : Int := daysFromCivil c.1 c.2.1 c.2.2
 
-/-- **days_civil_roundtrip_partial** — reduction of `daysFromCivil ∘ civilFromDays = id` (all of ℤ) to the one
-400-year era that starts at 0000-03-01 (146 097 consecutive day numbers), by the two periodicity lemmas above.
-MISSING: the finite era table itself (`hera`); it is a `decide +kernel` obligation over 146 097 days which has to
-be chunked over Nat-valued checkers to build in < 60 s per file (Int arithmetic costs ≈ 6 ms / day in the kernel);
-until then the agreement of `civilFromDays` / `daysFromCivil` with each other and with chrono / jiff is covered by
-the `temporal` correspondence suite only. -/
-theorem days_civil_roundtrip_partial
-    (hera : ∀ z0 : Int, -719468 ≤ z0 → z0 < -719468 + 146097 → daysOfCivil (civilFromDays z0) = z0) (z : Int) :
-    daysOfCivil (civilFromDays z) = z := by
-  have hz : z = (z - 146097 * ((z + 719468) / 146097)) + 146097 * ((z + 719468) / 146097) := by omega
-  have hb : -719468 ≤ z - 146097 * ((z + 719468) / 146097) ∧
-      z - 146097 * ((z + 719468) / 146097) < -719468 + 146097 := by omega
-  generalize (z + 719468) / 146097 = k at hz hb
-  have h0 := hera (z - 146097 * k) hb.1 hb.2
-  rw [hz, civilFromDays_shift]
-  unfold daysOfCivil at h0 ⊢
-  simp only
-  rw [daysFromCivil_shift, h0]
+/-- the leap-year rule of the model is the Gregorian one, for every (also negative) year -/
+theorem isLeapYear_spec (y : Int) : isLeapYear y = true ↔ (y % 4 = 0 ∧ (y % 100 ≠ 0 ∨ y % 400 = 0)) :=
+  isLeapYear_iff y
 
-/-- the era hypothesis holds on the first 600 days of the era (non-vacuity of the reduction; kernel evaluation) -/
-theorem era_window_sample : ∀ i : Nat, i < 600 →
-    daysOfCivil (civilFromDays ((i : Int) - 719468)) = (i : Int) - 719468 := by decide +kernel
+/-- the month lengths of the model: 31 / 30 days, February 28 or 29 -/
+theorem daysInMonth_spec (y m : Int) :
+    (m = 2 → daysInMonth y m = if isLeapYear y then 29 else 28) ∧
+    ((m = 4 ∨ m = 6 ∨ m = 9 ∨ m = 11) → daysInMonth y m = 30) ∧
+    ((m = 1 ∨ m = 3 ∨ m = 5 ∨ m = 7 ∨ m = 8 ∨ m = 10 ∨ m = 12) → daysInMonth y m = 31) := by
+  unfold daysInMonth
+  refine ⟨fun h => by rw [if_pos h], fun h => by rw [if_neg (by omega), if_pos h],
+    fun h => by rw [if_neg (by omega), if_neg (by omega)]⟩
+
+/-- **days_civil_roundtrip**: for every day count `z ∈ ℤ` (before and after the epoch, every era),
+`daysFromCivil (civilFromDays z) = z`.  No era table: inside the era the year-of-era formula is monotone and a
+400-row kernel table fixes it on the first and last day of every year (`Lemmas/C14Cal.lean`). -/
+theorem days_civil_roundtrip (z : Int) : daysOfCivil (civilFromDays z) = z :=
+  daysFromCivil_civilFromDays z
+
+/-- the civil date of every day count is a valid date of the proleptic Gregorian calendar -/
+theorem civilFromDays_valid (z : Int) :
+    1 ≤ (civilFromDays z).2.1 ∧ (civilFromDays z).2.1 ≤ 12 ∧ 1 ≤ (civilFromDays z).2.2 ∧
+      (civilFromDays z).2.2 ≤ daysInMonth (civilFromDays z).1 (civilFromDays z).2.1 :=
+  (validDate_iff _ _ _).1 (Codec.civilFromDays_valid z)
+
+/-- **civil_days_roundtrip**: the converse on valid civil dates (any year in ℤ, month 1–12, day 1 … length of
+the month with the Gregorian leap-year rule, see `daysInMonth_spec` / `isLeapYear_spec`) -/
+theorem civil_days_roundtrip (y m d : Int) (hm : 1 ≤ m ∧ m ≤ 12) (hd : 1 ≤ d ∧ d ≤ daysInMonth y m) :
+    civilFromDays (daysFromCivil y m d) = (y, m, d) :=
+  civilFromDays_daysFromCivil y m d ((validDate_iff y m d).2 ⟨hm.1, hm.2, hd.1, hd.2⟩)
+
+/-- so the two algorithms are mutually inverse bijections ℤ ↔ valid civil dates; in particular `daysFromCivil` is
+injective on valid dates -/
+theorem daysFromCivil_injective (y m d y' m' d' : Int) (h : validDate y m d = true) (h' : validDate y' m' d' = true)
+    (he : daysFromCivil y m d = daysFromCivil y' m' d') : (y, m, d) = (y', m', d') := by
+  rw [← civilFromDays_daysFromCivil y m d h, ← civilFromDays_daysFromCivil y' m' d' h', he]
+
+/-- day counts inside chrono's range have years inside chrono's range (−262143 … 262142) -/
+theorem civilFromDays_chrono_year (z : Int) (h : inChronoDays z = true) :
+    -262143 ≤ (civilFromDays z).1 ∧ (civilFromDays z).1 ≤ 262142 :=
+  civilFromDays_year_bounds z h
+
+/-- non-vacuity: leap days (2000, 2024, −0004 = 5 BCE, year 0), a non-leap century, the ends of chrono's range -/
+example : civilFromDays 11016 = (2000, 2, 29) ∧ daysFromCivil 2000 2 29 = 11016 := by decide
+example : validDate 1900 2 29 = false ∧ validDate 2024 2 29 = true ∧ validDate (-4) 2 29 = true ∧
+    validDate 0 2 29 = true ∧ validDate (-1) 2 29 = false := by decide
+example : civilFromDays (-1) = (1969, 12, 31) ∧ civilFromDays (-719528) = (0, 1, 1) ∧
+    civilFromDays (-719529) = (-1, 12, 31) := by decide
+example : civilFromDays chronoMinDays = (-262143, 1, 1) ∧ civilFromDays chronoMaxDays = (262142, 12, 31) := by decide
+
+/-! ## string round trips through the calendar -/
+
+/-- the reader's date string (incl. the `-YYYYYY` form for negative years and the `+YYYYY` form beyond 9999) is
+parsed back by the model of `NaiveDate::from_str` to the same day count, on all of chrono's range -/
+theorem date_string_roundtrip (z : Int) (h : inChronoDays z = true) : parseNaiveDate (formatDays z) = .ok z :=
+  parseNaiveDate_formatDays z h
+
+/-- **date_roundtrip** (Date32 and Date64): every stored value the reader accepts (`dateToString_ok_iff`: its day
+`⌊v / factor⌋` lies in chrono's range) is formatted to a string that the builder parses back to the stored value
+truncated to whole days — i.e. to `v` itself for Date32 and for every Date64 value that is a whole day -/
+theorem date_roundtrip (ty : DateTy) (v : Int) (h : inChronoDays (v / ty.factor) = true) :
+    ∃ s, dateToString ty v = .ok s ∧ dateOfString ty s = .ok (v / ty.factor * ty.factor) := by
+  refine ⟨formatDays (v / ty.factor), ?_, ?_⟩
+  · unfold dateToString; simp only [h, if_true]
+  · unfold dateOfString
+    rw [parseNaiveDate_formatDays _ h]
+    simp only [bind, Except.bind]
+    rw [inChronoDays_iff] at h
+    have h1 : ty.inRange (v / ty.factor) = true := by
+      cases ty
+      · simp only [DateTy.inRange, inI32_iff]; omega
+      · simp only [DateTy.inRange, inI64_iff]; omega
+    have h2 : inI64 (v / ty.factor * ty.factor) = true := by
+      rw [inI64_iff]
+      cases ty <;> simp only [DateTy.factor] at h ⊢ <;> omega
+    rw [if_pos h1, if_pos h2]
+
+theorem date32_roundtrip (v : Int) (h : inChronoDays v = true) :
+    ∃ s, dateToString .date32 v = .ok s ∧ dateOfString .date32 s = .ok v := by
+  have := date_roundtrip .date32 v (by simpa [DateTy.factor] using h)
+  simpa [DateTy.factor] using this
+
+theorem date64_roundtrip (v : Int) (h : inChronoDays (v / 86400000) = true) (hw : v % 86400000 = 0) :
+    ∃ s, dateToString .date64 v = .ok s ∧ dateOfString .date64 s = .ok v := by
+  have := date_roundtrip .date64 v h
+  rw [show v / DateTy.date64.factor * DateTy.date64.factor = v by simp only [DateTy.factor]; omega] at this
+  exact this
+
+/-- **timestamp_roundtrip**: every stored i64 the reader accepts (`timestampToString_ok_iff`: its day lies in
+chrono's range), in every unit, with and without the UTC zone, before and after the epoch, is formatted to a
+string that the builder parses back to exactly the stored value -/
+theorem timestamp_roundtrip (u : TimeUnit) (utc : Bool) (ts : Int) (hts : inI64 ts = true)
+    (hr : inChronoDays (ts / (u.perSec : Int) / 86400) = true) :
+    ∃ s, timestampToString u utc ts = .ok s ∧ timestampOfString u utc s = .ok ts := by
+  unfold timestampToString
+  cases ht : unitsToInstant u ts with
+  | none =>
+    have := unitsToInstant_isSome_iff u ts
+    rw [ht, hr] at this; cases this
+  | some t =>
+    obtain ⟨_, hs, hn, hd⟩ := unitsToInstant_spec u ts t ht
+    refine ⟨_, rfl, ?_⟩
+    unfold timestampOfString
+    cases utc
+    · simp only [Bool.false_eq_true, if_false]
+      rw [parseNaiveDateTime_formatInstant t hd hs hn]
+      exact instantToUnits_unitsToInstant u ts t hts ht
+    · simp only [if_true]
+      rw [parseUtcDateTime_formatInstant t hd hs hn]
+      exact instantToUnits_unitsToInstant u ts t hts ht
+
+/-- non-vacuity: negative year / pre-epoch part-second, year > 9999, Date64 before the epoch -/
+example : timestampToString .millisecond true (-62198755200001) = .ok "-000002-12-31T23:59:59.999Z".toList ∧
+    timestampOfString .millisecond true "-000002-12-31T23:59:59.999Z".toList = .ok (-62198755200001) := by decide
+example : timestampToString .second false 253402300800 = .ok "+10000-01-01T00:00:00".toList := by decide
+example : dateToString .date32 (-719529) = .ok "-000001-12-31".toList ∧
+    dateOfString .date32 "-000001-12-31".toList = .ok (-719529) := by decide
+example : dateToString .date64 (-86400000) = .ok "1969-12-31".toList ∧
+    dateOfString .date64 "1969-12-31".toList = .ok (-86400000) := by decide
 
 /-! ## UTC detection -/
 
